@@ -50,7 +50,12 @@ class MemoSim:
                         log.append(elem)
                     inner = elem if cached else caller
                     for callee in failed[elem][0]:
-                        run(callee, inner, False)
+                        try:
+                            run(callee, inner, False)
+                        except _Abort:
+                            # either handled by this formula or the failure that ends it: in both cases
+                            # the recorded call list says what ran next
+                            purge()
                     raise _Abort()
                 return
             if elem[1] is not None:
@@ -59,21 +64,39 @@ class MemoSim:
             if not cached and caller is not None:
                 self.upred.setdefault(caller, set()).add((elem[0], elem[1]))
             for callee in trace.calls[elem]:
-                run(callee, inner, False)
+                try:
+                    run(callee, inner, False)
+                except _Abort:
+                    # this element completed in the reference: its formula handled the failure itself
+                    purge()
             if cached:
                 self.held.add(elem)
                 self.refreads[elem] = set(trace.refreads.get(elem, ()))
                 if elem in trace.values:
                     self.values[elem] = trace.values[elem]
                 link(elem, caller)
-        try:
-            run(top, None, True)
-        except _Abort:
-            # elements on the failing chain acquired no value: forget the links recorded towards them
-            for e in [e for e in list(self.pred) if e not in self.held]:
+        def purge():
+            # elements on a failing chain acquired no value: forget the links recorded towards them
+            for e in [e for e in list(self.pred) if e not in self.held and e not in onstack]:
                 for p in self.pred.pop(e, ()):
                     self.succ.get(p, set()).discard(e)
                 self.upred.pop(e, None)
+
+        onstack = set()
+        orig_run = run
+
+        def run_tracked(elem, caller, top_level):
+            onstack.add(elem)
+            try:
+                orig_run(elem, caller, top_level)
+            finally:
+                onstack.discard(elem)
+        run = run_tracked
+        try:
+            run(top, None, True)
+        except _Abort:
+            onstack.clear()
+            purge()
         return log
 
     # -- discarding -------------------------------------------------------------
